@@ -1,5 +1,144 @@
-//! Harness binary for property C14 (line protocol; see /verif/vlib/BUILDER_GUIDE.md).
+//! Protocols of C14, implementation side, in-process:
+//!
+//! `lex <hex>`   same as C05: the real token producer's kinds, texts and spans (hook H6).
+//! `walk <hex>`  hook-free walk over the `Module<()>` returned by
+//!               `parse_source_module_from_text`: a pre-order list of located nodes
+//!               `<depth>:<kind>:<l0>.<c0>-<l1>.<c1>[:<hexname>]` separated by `;`, covering imports
+//!               (members, module path), toplevels (name, type parameters, members: name, type
+//!               parameters, parameters with annotation, return type, body) and the locations of
+//!               every reported error; prefix `syn=<n> `.  A panic gives `panic <hexmsg>`.
+use samlang_ast::Location;
+use samlang_ast::source::{Id, Toplevel, annotation};
+use samlang_errors::ErrorSet;
+use samlang_heap::{Heap, ModuleReference};
+use samverif_harness::util::*;
+use std::panic::{AssertUnwindSafe, catch_unwind};
+
+fn span(l: &Location) -> String {
+  format!("{}.{}-{}.{}", l.start.0, l.start.1, l.end.0, l.end.1)
+}
+
+struct Out<'a> {
+  heap: &'a Heap,
+  items: Vec<String>,
+}
+
+impl Out<'_> {
+  fn node(&mut self, depth: usize, kind: &str, l: &Location) {
+    self.items.push(format!("{depth}:{kind}:{}", span(l)));
+  }
+  fn id(&mut self, depth: usize, kind: &str, id: &Id) {
+    self.items.push(format!(
+      "{depth}:{kind}:{}:{}",
+      span(&id.loc),
+      hex(id.name.as_str(self.heap).as_bytes())
+    ));
+  }
+  fn tparams(&mut self, depth: usize, tp: Option<&annotation::TypeParameters>) {
+    if let Some(tp) = tp {
+      self.node(depth, "tparams", &tp.location);
+      for p in &tp.parameters {
+        self.node(depth + 1, "tparam", &p.loc);
+        self.id(depth + 2, "name", &p.name);
+        if let Some(b) = &p.bound {
+          self.node(depth + 2, "bound", &b.location);
+        }
+      }
+    }
+  }
+}
+
+fn walk(text: &str) -> String {
+  let mut heap = Heap::new();
+  let mut error_set = ErrorSet::new();
+  let module = samlang_parser::parse_source_module_from_text(
+    text,
+    ModuleReference::DUMMY,
+    &mut heap,
+    &mut error_set,
+  );
+  let syn = error_set.errors().iter().filter(|e| e.is_syntax_error()).count();
+  let mut o = Out { heap: &heap, items: Vec::new() };
+  for imp in &module.imports {
+    o.node(0, "import", &imp.loc);
+    for m in &imp.imported_members {
+      o.id(1, "name", m);
+    }
+    o.node(1, "modpath", &imp.imported_module_loc);
+  }
+  for t in &module.toplevels {
+    o.node(0, "toplevel", &t.loc());
+    o.id(1, "name", t.name());
+    o.tparams(1, t.type_parameters());
+    if let Some(e) = t.extends_or_implements_nodes() {
+      o.node(1, "extends", &e.location);
+      for n in &e.nodes {
+        o.node(2, "super", &n.location);
+      }
+    }
+    let bodies: Vec<Option<Location>> = match t {
+      Toplevel::Class(c) => c.members.members.iter().map(|m| Some(m.body.loc())).collect(),
+      Toplevel::Interface(i) => i.members.members.iter().map(|_| None).collect(),
+    };
+    for (d, body) in t.members_iter().zip(bodies) {
+      // `decl.loc` of a class member spans the whole definition including the body
+      o.node(1, "member", &d.loc);
+      o.tparams(2, d.type_parameters.as_ref());
+      o.id(2, "name", &d.name);
+      o.node(2, "params", &d.parameters.location);
+      for p in d.parameters.parameters.iter() {
+        o.node(3, "param", &p.name.loc.union(&p.annotation.location()));
+        o.id(4, "name", &p.name);
+        o.node(4, "annot", &p.annotation.location());
+      }
+      o.node(2, "ret", &d.return_type.location());
+      if let Some(b) = &body {
+        o.node(2, "body", b);
+      }
+    }
+  }
+  for e in error_set.errors() {
+    o.node(0, "error", &e.location);
+  }
+  format!("syn={syn} {}", if o.items.is_empty() { "-".to_string() } else { o.items.join(";") })
+}
+
+fn lex(text: &str) -> String {
+  let mut heap = Heap::new();
+  let mut error_set = ErrorSet::new();
+  let mut toks: Vec<String> = Vec::new();
+  let r = catch_unwind(AssertUnwindSafe(|| {
+    samlang_parser::verif_hooks::produce_tokens_with(
+      text,
+      ModuleReference::DUMMY,
+      &mut heap,
+      &mut error_set,
+      |(kind, text, (l0, c0, l1, c1))| {
+        toks.push(format!("{kind}:{}@{l0}.{c0}-{l1}.{c1}", hex(text.as_bytes())));
+      },
+    );
+  }));
+  let mut out = format!("T {}", if toks.is_empty() { "-".to_string() } else { toks.join(";") });
+  if r.is_err() {
+    out.push_str(" P");
+  }
+  out
+}
+
 fn main() {
-  eprintln!("c14: not implemented yet");
-  std::process::exit(2);
+  std::panic::set_hook(Box::new(|_| {}));
+  for_each_line(|line| {
+    let t: Vec<&str> = line.split(' ').collect();
+    match t[0] {
+      "lex" if t.len() == 2 => lex(&unhex_str(t[1])),
+      "walk" if t.len() == 2 => {
+        let text = unhex_str(t[1]);
+        match catch_unwind(AssertUnwindSafe(|| walk(&text))) {
+          Ok(s) => s,
+          Err(e) => format!("panic {}", hex(panic_msg(&e).as_bytes())),
+        }
+      }
+      _ => "bad-op".to_string(),
+    }
+  });
 }
